@@ -18,7 +18,7 @@ func init() {
 	core.Register(&core.Check{
 		ID:    "C09",
 		Level: "model_checking",
-		Rule: "all object literals of <=3 (thorough 4) pairs over names {a,b,_p,_q} with <=2 `**` objects, and all map literals of <=3 (thorough 4) pairs over 14 key kinds plus `**map`/`**obj` combinations; " +
+		Rule: "all object literals of <=4 (thorough 5) pairs over names {a,b,_p,_q} with <=2 `**` objects, and all map literals of <=4 (thorough 5) pairs over 14 key kinds plus `**map`/`**obj` combinations; " +
 			"every accessor (keys/values/items with and without private?, A, iteration, S, ==, indexing by every key, len) is evaluated by the real interpreter and compared with an ordered-dictionary model; " +
 			"non-trivial = literal with a duplicate, a private name, an embedded container or a non-scalar key; distinct = distinct literal text",
 		Assumptions: []string{
@@ -564,7 +564,7 @@ func judge(c *core.Ctx, t tcase, o panrun.Obs) {
 }
 
 func run(c *core.Ctx) {
-	maxP := c.Pick(3, 4)
+	maxP := c.Pick(4, 5)
 	c.Note("max_pairs", maxP)
 	n := 0
 	total := tk.Batched(c, 600, "", func(emit func(tcase)) {
